@@ -1,12 +1,17 @@
 """C01 Two-way convergence and bounded quiescence."""
+from vlib import engine_check as E
 from vlib import family as F
 from vlib import oracles as O
-from vlib import runner as R
-from vlib import workload as W
 from vlib import probes as P
+from vlib import workload as W
+from vlib.shard import Acc
 
+PROP = "C01"
 META = {
     "level": "exploration",
+    "claim": "Held on the executed runs: generated one-sided, disjoint two-sided and same-path conflict histories (4-12 ops) over 5-8 provider flavours and 8 schedule shapes are driven through the real engine one loop iteration at a time; at quiescence both root trees must be equal modulo '.conflicted' names, quiescence must be reached within 3000 steps and no exception may escape a service step. Hazard-seeking histories (thorough) are attributed to listed findings by input predicate or reported.",
+    "note": 'Trusted: MockProvider as substrate, the tap wrappers, the tree snapshot through listdir/download. Not reached: histories longer than 12 ops, real network timing, schedules finer than one loop iteration, provider flavours outside the matrix.',
+    "technique": 'runtime monitoring: convergence oracle over observed quiescent trees of generated histories x schedules',
     "plan": {"quick": {"shards": 16, "timeout": 600, "cases": 12000},
              "thorough": {"shards": 32, "timeout": 3000, "cases": 240000, "seek": 60000}},
     "rule": "case = (family ONE0/ONE1/DISJ/CONF [thorough: +SEEK1/SEEK2/CLASH hazard-seeking], flavour, schedule shape, "
@@ -15,14 +20,13 @@ META = {
             "(side, op kind, depth) and step positions); non-trivial = the engine issued >= 1 provider write after the base tree",
     "assumptions": ["MockProvider flavours are the substrate (oo po pp op of [+fo oi io thorough])",
                     "quiescence = two consecutive full rounds E0,E1,S with busy false and no engine write",
-                    "bounded progress cap QCAP=3000 steps", "hazard predicates HD/HF/HT/HX delimit known findings K1-K3,K13,K14"],
+                    "bounded progress cap QCAP=3000 steps",
+                    "hazard predicates HD/HF/HT/HX delimit known findings K1-K3,K13,K14"],
 }
 
 
-def evaluate(case, obs):
-    probs = []
-    for p in obs.problems:
-        probs.append(p)
+def evaluate(case, obs, sim, monitors):
+    probs = list(obs.problems)
     if obs.unhandled:
         probs.append(("exception_escaped_step", obs.unhandled[:2]))
     if obs.trees is not None:
@@ -30,46 +34,20 @@ def evaluate(case, obs):
     return probs
 
 
-def run_one(case, acc, main=True):
-    idx = O.IndexMonitor()
-    obs, sim = R.run_case(case, monitors=[idx], sim_kwargs={"rng": __import__("random").Random(case.get("sim_seed", 0))},
-                          keep_sim=True)
-    try:
-        acc.evaluations += 1
-        if obs.harness_error:
-            acc.errors.append(obs.harness_error)
-            return None
-        writes = len(O.engine_writes(sim, since=getattr(sim.world, "calls_base", 0)))
-        acc.count("engine_steps", obs.steps_total)
-        acc.count("engine_writes", writes)
-        acc.count("user_ops", len(obs.user))
-        acc.count("index_walks", idx.walks)
-        acc.maxi("max_steps_to_quiescence", max(obs.quiesce_steps) if obs.quiesce_steps else None)
-        acc.add("flavours", case["flavour"])
-        acc.add("families", case["family"])
-        acc.add("shapes", case["shape"])
-        if writes:
-            acc.sigs.add(W.signature(case))
-        import hashlib
-        seqh = hashlib.blake2b(repr([(c["side"], c["op"]) for c in sim.world.calls if c["op"] in ("create", "upload", "rename", "delete", "mkdir")]).encode(), digest_size=8).hexdigest()
-        acc.sets["engine_call_sequences"].add(seqh)
-        for o in obs.user:
-            acc.count("op_" + o["op"])
-        return evaluate(case, obs)
-    finally:
-        sim.close()
+def run(case, acc=None, count=True):
+    return E.run_one(case, acc or Acc(), evaluate, monitors_factory=lambda: [O.IndexMonitor()], count=count)
 
 
 def shard(ctx, acc):
     plan = META["plan"][ctx.tier]
     flavours = F.S.FLAVOURS_MAIN if ctx.tier == "quick" else F.S.FLAVOURS_ALL
     for i in F.indices(ctx, plan["cases"]):
-        case = F.make_case(ctx.seed, "C01", i, flavours=flavours)
+        case = F.make_case(ctx.seed, PROP, i, flavours=flavours)
         hz, _ = F.classify(case)
         if hz:
             acc.inconclusive.append("generator bug: main-family case %d has hazard %s" % (i, sorted(hz)))
             continue
-        probs = run_one(case, acc)
+        probs = run(case, acc)
         if probs is None:
             continue
         acc.sample(W.brief_case(case))
@@ -77,10 +55,10 @@ def shard(ctx, acc):
             acc.violation(probs[0][0], probs[:4], case)
     # hazard-seeking families (thorough): failures are attributed by input predicate or reported
     for i in F.indices(ctx, plan.get("seek", 0)):
-        case = F.make_case(ctx.seed, "C01seek", i, families=("SEEK1", "SEEK2", "CLASH"), flavours=("oo", "po", "pp", "op"),
-                           nops=(4, 9))
+        case = F.make_case(ctx.seed, PROP + "seek", i, families=("SEEK1", "SEEK2", "CLASH"),
+                           flavours=("oo", "po", "pp", "op"), nops=(4, 9))
         hz, ks = F.classify(case)
-        probs = run_one(case, acc)
+        probs = run(case, acc)
         if probs is None:
             continue
         acc.count("seek_cases")
@@ -93,38 +71,15 @@ def shard(ctx, acc):
             else:
                 acc.violation("seek:" + probs[0][0], probs[:4], case)
     if ctx.shard == 0:
-        from vlib.shard import Acc
-        P.run_probes("C01", acc, lambda c: run_one(c, Acc()))
+        P.run_probes(PROP, acc, lambda c: run(c, count=False))
 
 
 def conclusive(acc, tier):
     out = []
     if acc.counters.get("engine_writes", 0) == 0:
         out.append("no engine write was observed")
-    if acc.counters.get("index_walks", 0) == 0:
-        out.append("state walker never ran")
     return out
 
 
-def coverage_extra(acc, tier):
-    return {"distinct_engine_call_sequences": len(acc.sets.get("engine_call_sequences", ())),
-            "vocab": {k: sorted(v)[:60] for k, v in sorted(acc.sets.items()) if k != "engine_call_sequences"}}
-
-
-def replay(rep):
-    case = rep.get("case")
-    if not case:
-        print("replay file carries no case")
-        return 2
-    from vlib.shard import Acc
-    hits = 0
-    n = 10
-    for k in range(n):
-        case["sim_seed"] = case.get("sim_seed", 0) + k
-        probs = run_one(case, Acc())
-        if probs:
-            hits += 1
-            if hits == 1:
-                print("reproduced:", probs[:3])
-    print("reproduction rate %d/%d" % (hits, n))
-    return 1 if hits else 0
+coverage_extra = E.coverage_extra
+replay = E.replay_with(lambda c: run(c, count=False))
